@@ -1,3 +1,431 @@
-//! C04 — not built yet.
-pub const BUILT: bool = false;
-pub fn run(_rep: &mut vx::Report) {}
+//! C04 — the newest revision of an object always wins (ISO 32000-1 §7.5.6).
+//!
+//! Space (fully enumerated, nothing sampled):
+//!  * `histories`: base file ∈ {classic table, xref stream, xref stream + object stream holding the
+//!    tracked objects}; 0..=K appended revisions (K = 2 quick / 3 thorough); each revision's
+//!    cross-reference form ∈ {table, stream}; for the /Pages node: {untouched, redefine plain,
+//!    redefine inside a new object stream}; for each of two tracked objects: while live
+//!    {untouched, redefine plain, redefine inside a new object stream, free}, while free
+//!    {untouched, re-add with the bumped generation}. "Inside an object stream" exists only in
+//!    revisions whose cross-reference section is a stream (type-2 entries, §7.5.8) and only for
+//!    generation 0 (§7.5.7). Every file is opened under the presets strict, default, lenient.
+//!  * `recovery-scan`: bases without object streams, 1..=K revisions made of plain redefinitions
+//!    only, with the cross-reference data wrecked in three ways that force the recovery scan;
+//!    presets with recovery enabled (default, lenient).
+//! Oracle: model map object → latest value / null when freed; the reference reader
+//! (refpdf::file::PdfFile + strict validator) must agree with the model on every file before the
+//! library is judged (guards the builder).
+use crate::util::objcmp;
+use oxidize_pdf::parser::objects::PdfObject;
+use oxidize_pdf::parser::{ParseOptions, PdfReader};
+use refpdf::builder::{FileBuilder, Revision, XrefForm};
+use refpdf::file::{PdfFile, XEntry};
+use refpdf::syntax::Obj;
+use serde_json::json;
+use std::io::Cursor;
+use vx::{Ctx, Explore, Report};
+
+pub const BUILT: bool = true;
+
+const P: u32 = 2; // the /Pages node
+const A: u32 = 4;
+const B: u32 = 5;
+const TRACKED: [u32; 3] = [P, A, B];
+
+#[derive(Clone, Copy, PartialEq, Eq, Debug, Hash)]
+enum Kind {
+    Plain,
+    InStm,
+    Free,
+    ReAdd,
+}
+
+#[derive(Clone, Debug)]
+struct Ev {
+    rev: usize,
+    kind: Kind,
+    gen: u16,
+    /// None for a free entry
+    val: Option<Obj>,
+}
+
+#[derive(Clone, Debug)]
+struct Track {
+    num: u32,
+    events: Vec<Ev>,
+}
+impl Track {
+    fn last(&self) -> &Ev {
+        self.events.last().unwrap()
+    }
+    fn live(&self) -> bool {
+        self.last().val.is_some()
+    }
+    fn expected(&self) -> Obj {
+        self.last().val.clone().unwrap_or(Obj::Null)
+    }
+}
+
+fn value(num: u32, rev: usize) -> Obj {
+    if num == P {
+        Obj::dict(vec![
+            ("Type", Obj::name("Pages")),
+            ("Kids", Obj::Array(vec![Obj::Ref(3, 0)])),
+            ("Count", Obj::Int(1)),
+            ("Rev", Obj::Int(rev as i64)),
+        ])
+    } else {
+        Obj::dict(vec![
+            ("Kind", Obj::name(if num == A { "A" } else { "B" })),
+            ("Rev", Obj::Int(rev as i64)),
+            ("Mark", Obj::str(format!("obj{num}-rev{rev}").as_bytes())),
+        ])
+    }
+}
+
+struct History {
+    fb: FileBuilder,
+    tracks: Vec<Track>,
+    /// (object number, value) of the per-revision filler objects
+    fillers: Vec<(u32, Obj)>,
+    desc: Vec<String>,
+}
+
+/// Build the base revision and let `c` choose the appended revisions.
+fn choose_history(c: &mut Ctx, bases: &[usize], min_revs: usize, max_revs: usize, plain_only: bool) -> History {
+    let base = *c.pick_from("base", bases);
+    let (form0, objstm0) = match base {
+        0 => (XrefForm::Table, false),
+        1 => (XrefForm::Stream, false),
+        _ => (XrefForm::Stream, true),
+    };
+    let mut desc = vec![format!("base={}", ["classic", "xref-stream", "xref-stream+objstm"][base])];
+    let mut r0 = Revision::new(form0);
+    r0.add(1, Obj::dict(vec![("Type", Obj::name("Catalog")), ("Pages", Obj::Ref(P, 0))]));
+    r0.add(
+        3,
+        Obj::dict(vec![
+            ("Type", Obj::name("Page")),
+            ("Parent", Obj::Ref(P, 0)),
+            ("MediaBox", Obj::Array(vec![Obj::Int(0), Obj::Int(0), Obj::Int(200), Obj::Int(300)])),
+            ("Resources", Obj::dict(vec![])),
+        ]),
+    );
+    let mut tracks = Vec::new();
+    for n in TRACKED {
+        let v = value(n, 0);
+        r0.add(n, v.clone());
+        if objstm0 {
+            r0.in_objstm.insert(n);
+        }
+        tracks.push(Track { num: n, events: vec![Ev { rev: 0, kind: if objstm0 { Kind::InStm } else { Kind::Plain }, gen: 0, val: Some(v) }] });
+    }
+    let mut fb = FileBuilder::new(1);
+    fb.revisions.push(r0);
+    let mut fillers = Vec::new();
+
+    let nrev = min_revs + c.choose("n_revs", max_revs - min_revs + 1);
+    for ri in 1..=nrev {
+        let form = if c.choose("form", 2) == 0 { XrefForm::Table } else { XrefForm::Stream };
+        let mut r = Revision::new(form);
+        // alternate the xref-stream encoding (not a dimension of the property): odd revisions
+        // use Flate + PNG predictor 12, even ones are stored
+        r.xref_predictor = ri % 2 == 1;
+        let mut d = format!("rev{ri}={}", if form == XrefForm::Table { "table" } else { "stream" });
+        for t in tracks.iter_mut() {
+            let last = t.last().clone();
+            let mut menu: Vec<Option<Kind>> = vec![None];
+            if last.val.is_some() {
+                menu.push(Some(Kind::Plain));
+                if !plain_only {
+                    if form == XrefForm::Stream && last.gen == 0 {
+                        menu.push(Some(Kind::InStm));
+                    }
+                    if t.num != P {
+                        menu.push(Some(Kind::Free));
+                    }
+                }
+            } else if !plain_only {
+                menu.push(Some(Kind::ReAdd));
+            }
+            let op = menu[c.choose("op", menu.len())];
+            match op {
+                None => d.push_str(&format!(" {}:keep", t.num)),
+                Some(Kind::Plain) => {
+                    let v = value(t.num, ri);
+                    r.objects.push((t.num, last.gen, v.clone()));
+                    t.events.push(Ev { rev: ri, kind: Kind::Plain, gen: last.gen, val: Some(v) });
+                    d.push_str(&format!(" {}:plain", t.num));
+                }
+                Some(Kind::InStm) => {
+                    let v = value(t.num, ri);
+                    r.objects.push((t.num, 0, v.clone()));
+                    r.in_objstm.insert(t.num);
+                    t.events.push(Ev { rev: ri, kind: Kind::InStm, gen: 0, val: Some(v) });
+                    d.push_str(&format!(" {}:objstm", t.num));
+                }
+                Some(Kind::Free) => {
+                    // the free entry carries the generation of the next use (§7.5.4)
+                    r.free.push((t.num, last.gen + 1));
+                    t.events.push(Ev { rev: ri, kind: Kind::Free, gen: last.gen + 1, val: None });
+                    d.push_str(&format!(" {}:free", t.num));
+                }
+                Some(Kind::ReAdd) => {
+                    let v = value(t.num, ri);
+                    r.objects.push((t.num, last.gen, v.clone()));
+                    t.events.push(Ev { rev: ri, kind: Kind::ReAdd, gen: last.gen, val: Some(v) });
+                    d.push_str(&format!(" {}:re-add(gen {})", t.num, last.gen));
+                }
+            }
+        }
+        // every revision adds one new object, so no revision is empty
+        let fnum = 10 + ri as u32;
+        let fv = Obj::dict(vec![("Filler", Obj::Int(ri as i64))]);
+        r.add(fnum, fv.clone());
+        fillers.push((fnum, fv));
+        fb.revisions.push(r);
+        desc.push(d);
+    }
+    History { fb, tracks, fillers, desc }
+}
+
+/// The reference reader must resolve the file exactly as the model says.
+fn reference_agrees(bytes: &[u8], h: &History, strict_validate: bool) -> Result<(), String> {
+    let f = PdfFile::parse(bytes).map_err(|e| format!("reference reader cannot open the file: {e}"))?;
+    for t in &h.tracks {
+        let got = f.get(t.num);
+        if !got.same(&t.expected()) {
+            return Err(format!("reference reader: object {} = {:?}, model {:?}", t.num, got, t.expected()));
+        }
+        let ent = f.xref.get(&t.num).copied();
+        let ok = match (t.last().kind, ent) {
+            (Kind::Free, Some(XEntry::Free { gen, .. })) => gen == t.last().gen,
+            (Kind::InStm, Some(XEntry::Compressed { .. })) => true,
+            (Kind::Plain | Kind::ReAdd, Some(XEntry::InUse { gen, .. })) => gen == t.last().gen,
+            _ => false,
+        };
+        if !ok {
+            return Err(format!("reference reader: xref entry of object {} is {:?}, model event {:?}", t.num, ent, t.last().kind));
+        }
+    }
+    for (n, v) in &h.fillers {
+        if !f.get(*n).same(v) {
+            return Err(format!("reference reader: filler {n} = {:?}", f.get(*n)));
+        }
+    }
+    if strict_validate {
+        let issues = refpdf::file::validate_file(&f);
+        if !issues.is_empty() {
+            return Err(format!("strict validator: {issues:?}"));
+        }
+    }
+    Ok(())
+}
+
+type Got = Result<Obj, String>;
+
+/// None = the library's answer is right; Some(key) = finding key for this wrong answer.
+fn classify(t: &Track, got: &Got) -> Option<String> {
+    let want = t.expected();
+    if let Ok(g) = got {
+        if g.same(&want) {
+            return None;
+        }
+        // exact signature of the expected defect: the answer is the newest definition that
+        // lived inside an object stream, although a later revision superseded it
+        let newest_stm = t.events.iter().rev().find(|e| e.kind == Kind::InStm);
+        if let Some(s) = newest_stm {
+            if s.rev != t.last().rev && g.same(s.val.as_ref().unwrap()) {
+                return Some(match t.last().kind {
+                    Kind::Free => "C04/stale-objstm-entry-beats-newer-free-entry".to_string(),
+                    _ => "C04/stale-objstm-entry-beats-newer-plain-definition".to_string(),
+                });
+            }
+        }
+        if t.events.iter().any(|e| e.val.as_ref().map(|v| g.same(v)).unwrap_or(false)) {
+            return Some("C04/older-revision-wins".to_string());
+        }
+        if g.is_null() {
+            return Some("C04/live-object-reads-as-null".to_string());
+        }
+        return Some("C04/wrong-value".to_string());
+    }
+    let e = got.as_ref().unwrap_err();
+    if e.starts_with("PANIC") {
+        return Some(format!("C04/panic@{}", vx::panic_site(e)));
+    }
+    Some(if t.live() { "C04/live-object-lookup-fails".to_string() } else { "C04/freed-object-lookup-fails-instead-of-null".to_string() })
+}
+
+fn presets() -> [(&'static str, ParseOptions); 3] {
+    [("strict", ParseOptions::strict()), ("default", ParseOptions::default()), ("lenient", ParseOptions::lenient())]
+}
+
+fn lib_get(r: &mut PdfReader<Cursor<Vec<u8>>>, n: u32, g: u16, via_resolve: bool) -> Got {
+    let res = vx::guard(|| {
+        if via_resolve {
+            let rf = PdfObject::Reference(n, g);
+            r.resolve(&rf).map(objcmp::to_ref).map_err(|e| e.to_string())
+        } else {
+            r.get_object(n, g).map(objcmp::to_ref).map_err(|e| e.to_string())
+        }
+    });
+    match res {
+        Ok(r) => r,
+        Err(p) => Err(format!("PANIC {p}")),
+    }
+}
+
+/// Open `bytes` under `opts` and compare every tracked object with the model. Returns the
+/// observation hash.
+fn judge(c: &mut Ctx, bytes: &[u8], h: &History, pname: &str, opts: ParseOptions, section: &str) -> u64 {
+    let ctx = || format!("[{section}] preset={pname} history: {}", h.desc.join(" | "));
+    let opened = vx::guard(|| PdfReader::new_with_options(Cursor::new(bytes.to_vec()), opts).map_err(|e| e.to_string()));
+    let mut r = match opened {
+        Ok(Ok(r)) => r,
+        Ok(Err(e)) => {
+            c.fail(format!("C04/open-fails-{pname}"), format!("{} error={e}", ctx()));
+            return 1;
+        }
+        Err(p) => {
+            c.fail(format!("C04/panic@{}", vx::panic_site(&p)), format!("{} open panicked: {p}", ctx()));
+            return 2;
+        }
+    };
+    let mut oh = 3u64;
+    for t in &h.tracks {
+        let gen = match t.last().kind {
+            // a reference written before the object was freed carries the old generation
+            Kind::Free => t.last().gen - 1,
+            _ => t.last().gen,
+        };
+        let got = lib_get(&mut r, t.num, gen, t.num == B);
+        let cls = classify(t, &got);
+        oh = vx::hmix(oh, vx::h64(&cls));
+        if let Some(key) = cls {
+            c.fail(key, format!("{} object {} {} R: want {:?} got {:?}", ctx(), t.num, gen, t.expected(), got));
+        }
+        // after a re-add, a reference with the *old* generation is a reference to an undefined
+        // object: null per §7.3.10; an error or (lenient) the current object are tolerated, an
+        // older value is not
+        if t.last().kind == Kind::ReAdd && gen > 0 {
+            let got_old = lib_get(&mut r, t.num, gen - 1, false);
+            if let Ok(g) = &got_old {
+                if !g.is_null() && !g.same(&t.expected()) {
+                    let key = classify(t, &got_old).unwrap_or_else(|| "C04/wrong-value".into());
+                    c.fail(key, format!("{} object {} {} R (stale generation): got {:?}", ctx(), t.num, gen - 1, got_old));
+                }
+            }
+        }
+    }
+    for (n, v) in &h.fillers {
+        let got = lib_get(&mut r, *n, 0, false);
+        let ok = matches!(&got, Ok(g) if g.same(v));
+        oh = vx::hmix(oh, ok as u64);
+        if !ok {
+            c.fail("C04/object-added-by-an-update-not-readable", format!("{} object {n} 0 R: want {:?} got {:?}", ctx(), v, got));
+        }
+    }
+    oh
+}
+
+fn replace_last(bytes: &mut Vec<u8>, from: &[u8], to: &[u8]) -> bool {
+    if let Some(p) = (0..=bytes.len().saturating_sub(from.len())).rev().find(|&i| bytes[i..].starts_with(from)) {
+        bytes.splice(p..p + from.len(), to.iter().copied());
+        true
+    } else {
+        false
+    }
+}
+
+const DAMAGES: [&str; 3] = ["final-startxref-points-at-0", "final-startxref-points-past-EOF", "every-startxref-keyword-wrecked"];
+
+fn damage(bytes: &[u8], kind: usize, final_xref: usize) -> Vec<u8> {
+    let mut b = bytes.to_vec();
+    let old = format!("startxref\n{final_xref}\n%%EOF\n");
+    match kind {
+        0 => {
+            assert!(replace_last(&mut b, old.as_bytes(), b"startxref\n0\n%%EOF\n"));
+        }
+        1 => {
+            let new = format!("startxref\n{}\n%%EOF\n", bytes.len() + 1000);
+            assert!(replace_last(&mut b, old.as_bytes(), new.as_bytes()));
+        }
+        _ => {
+            let mut i = 0;
+            while i + 9 <= b.len() {
+                if &b[i..i + 9] == b"startxref" {
+                    b[i..i + 9].copy_from_slice(b"stXrtxreX");
+                }
+                i += 1;
+            }
+        }
+    }
+    b
+}
+
+pub fn run(rep: &mut Report) {
+    let thorough = rep.tier.is_thorough();
+    let k = if thorough { 3 } else { 2 };
+    rep.rule("case = one history (base form, per appended revision: xref form and one operation per tracked object) \
+              opened under each preset; non-trivial = at least one appended revision touches a tracked object; \
+              distinct = distinct file bytes");
+    rep.assume("the model (last event per object wins; a free entry reads as null) is ISO 32000-1 7.5.6/7.3.10; \
+                refpdf's reader and strict validator must agree with it on every generated file before the library is judged");
+    rep.assume("'inside an object stream' is only offered in revisions whose cross-reference section is a stream (hybrid /XRefStm files are not part of the property) and for generation 0; \
+                a freed object is re-added with the generation recorded in its free entry");
+    rep.assume("recovery-scan section: only plain redefinitions (a header scan cannot know free entries or compressed objects)");
+    rep.note("K", json!(k));
+
+    rep.explore("histories", Explore::full(), |c: &mut Ctx| {
+        let h = choose_history(c, &[0, 1, 2], 0, k, false);
+        let built = h.fb.build();
+        c.input(vx::hbytes(&built.bytes));
+        if h.tracks.iter().any(|t| t.events.len() > 1) {
+            c.nontrivial();
+        }
+        if let Err(e) = reference_agrees(&built.bytes, &h, true) {
+            c.fail("C04/harness-reference-reader-disagrees-with-model", format!("{} :: {e}", h.desc.join(" | ")));
+            return;
+        }
+        let mut oh = 0u64;
+        for (pname, opts) in presets() {
+            oh = vx::hmix(oh, judge(c, &built.bytes, &h, pname, opts, "histories"));
+        }
+        c.add_evaluations(2);
+        c.outcome(oh);
+        c.sample(json!({"history": h.desc, "file_len": built.bytes.len(),
+                        "expected": h.tracks.iter().map(|t| json!([t.num, format!("{:?}", t.expected())])).collect::<Vec<_>>() }));
+    });
+
+    rep.explore("recovery-scan", Explore::full(), |c: &mut Ctx| {
+        let h = choose_history(c, &[0, 1], 1, k, true);
+        let dk = c.choose("damage", DAMAGES.len());
+        let built = h.fb.build();
+        if let Err(e) = reference_agrees(&built.bytes, &h, true) {
+            c.fail("C04/harness-reference-reader-disagrees-with-model", format!("{} :: {e}", h.desc.join(" | ")));
+            return;
+        }
+        let bytes = damage(&built.bytes, dk, *built.xref_offsets.last().unwrap());
+        c.input(vx::hbytes(&bytes));
+        if h.tracks.iter().any(|t| t.events.len() > 1) {
+            c.nontrivial();
+        }
+        // the damage must defeat the reference reader's normal open as well (otherwise it is not damage)
+        if let Ok(f) = PdfFile::parse(&bytes) {
+            if h.tracks.iter().all(|t| f.get(t.num).same(&t.expected())) {
+                c.fail("C04/harness-damage-left-the-file-intact", format!("{} damage={}", h.desc.join(" | "), DAMAGES[dk]));
+                return;
+            }
+        }
+        let mut hd = History { fb: h.fb.clone(), tracks: h.tracks.clone(), fillers: h.fillers.clone(), desc: h.desc.clone() };
+        hd.desc.push(format!("damage={}", DAMAGES[dk]));
+        let mut oh = 0u64;
+        for (pname, opts) in presets().into_iter().skip(1) {
+            oh = vx::hmix(oh, judge(c, &bytes, &hd, pname, opts, "recovery-scan"));
+        }
+        c.add_evaluations(1);
+        c.outcome(oh);
+        c.sample(json!({"history": hd.desc, "file_len": bytes.len()}));
+    });
+}
